@@ -54,6 +54,15 @@ func main() {
 		}
 	}
 	prog, err := sym.Load(*dir, overlay, strings.Split(*pkgs, ","))
+	if err == nil {
+		// table declarations are read from the proto files of the tree the module lives in
+		for d := *dir; d != "/" && d != "."; d = filepath.Dir(d) {
+			if st, e := os.Stat(filepath.Join(d, "proto", "regen")); e == nil && st.IsDir() {
+				prog.ProtoRoot = filepath.Join(d, "proto")
+				break
+			}
+		}
+	}
 	if err != nil {
 		fail(*out, err)
 	}
